@@ -166,6 +166,8 @@ class Sim(Interp):
 
     # ---- expressions
     def e_Await(self, e, env):
+        if isinstance(e.value, ast.Call) and isinstance(e.value.func, ast.Attribute) and e.value.func.attr == "acquire":
+            return self.eval(e.value, env)  # `await x.acquire()` is one suspension point, counted by _enter
         v = self.eval(e.value, env)
         self.trace.append(("await", ast.unparse(e.value)[:50]))
         self._point(f"await {ast.unparse(e.value)[:40]}")
